@@ -147,7 +147,20 @@ static void run(const std::vector<std::string>& t) {
 	auto H = [&](size_t i) { return i < t.size() ? handleArg(t[i]) : 0UL; };
 	auto N = [&](size_t i) { return i < t.size() ? strtoul(t[i].c_str(), NULL, 0) : 0UL; };
 
-	if (op == "init") { fprintf(out, "= %lu\n", C_Initialize(NULL_PTR)); maxHandleSeen = 0; }
+	if (op == "nop") { fprintf(out, "= 0\n"); }
+	else if (op == "wipe" || op == "snapshot" || op == "restore") {
+		// token-directory management between C_Finalize and C_Initialize (many short traces in one process)
+		const char* td = getenv("VERIF_TOKENDIR");
+		std::string cmd;
+		if (!td) { fprintf(out, "= BADOP\n"); return; }
+		std::string d(td);
+		if (op == "wipe") cmd = "rm -rf '" + d + "' && mkdir -p '" + d + "'";
+		else if (op == "snapshot") cmd = "rm -rf '" + d + ".snap." + t[1] + "' && cp -a '" + d + "' '" + d + ".snap." + t[1] + "'";
+		else cmd = "rm -rf '" + d + "' && cp -a '" + d + ".snap." + t[1] + "' '" + d + "'";
+		int rc = system(cmd.c_str());
+		fprintf(out, "= %d\n", rc);
+	}
+	else if (op == "init") { fprintf(out, "= %lu\n", C_Initialize(NULL_PTR)); maxHandleSeen = 0; }
 	else if (op == "fini") { fprintf(out, "= %lu\n", C_Finalize(NULL_PTR)); }
 	else if (op == "slots") {
 		CK_RV rv; std::vector<SlotRow> rows = listSlots(false, &rv);
@@ -293,6 +306,7 @@ int main(int argc, char** argv) {
 	setvbuf(out, NULL, _IOLBF, 0);
 	std::string line;
 	while (std::getline(*in, line)) {
+		if (line.rfind("#trace", 0) == 0) { fprintf(out, "%s\n", line.c_str()); fflush(out); opNo = 0; results.clear(); continue; }
 		if (line.empty() || line[0] == '#') continue;
 		opNo++;
 		std::vector<std::string> t; { std::stringstream ss(line); std::string w; while (ss >> w) t.push_back(w); }
